@@ -313,8 +313,11 @@ class VQESolver:
 
         # Additional computation for deflation (optional)
         for circ in self.deflation_circuits:
-            f_dict, _ = self.backend.simulate(circ + circuit.inverse())
-            energy += self.deflation_coeff * f_dict.get("0"*self.ansatz.circuit.width, 0)
+            # The overlap is the probability of the all-zero outcome on the register of the circuit that is simulated
+            # (the ansatz circuit alone can be narrower, e.g. with a reference circuit or when rotations vanish).
+            overlap_circuit = circ + circuit.inverse()
+            f_dict, _ = self.backend.simulate(overlap_circuit)
+            energy += self.deflation_coeff * f_dict.get("0"*overlap_circuit.width, 0)
 
         if self.verbose:
             print(f"\tEnergy = {energy:.7f} ")
